@@ -44,3 +44,21 @@ theorem U64.div_pos (a b : Nat) (h : b ≠ 0) : U64.div a b = some (a / b) := by
   unfold U64.div; simp [h]
 
 end EngineModel.Cxx
+
+namespace EngineModel.Cxx
+
+theorem U64.mod_pos (a b : Nat) (h : b ≠ 0) : U64.mod a b = some (a % b) := by
+  unfold U64.mod; simp [h]
+
+/-- `(n − 1) / q + 1` is the same ceiling division as `(n + q − 1) / q`. -/
+theorem ceil_div_alt (n q : Nat) (hn : 0 < n) (hq : 0 < q) : (n - 1) / q + 1 = (n + q - 1) / q := by
+  have e : n + q - 1 = (n - 1) + q := by omega
+  rw [e, Nat.add_div_right _ hq]
+
+/-- `n − n % q` is `n` rounded down to a multiple of `q`. -/
+theorem round_down_alt (n q : Nat) : n - n % q = n / q * q := by
+  have := Nat.div_add_mod n q
+  rw [Nat.mul_comm] at this
+  omega
+
+end EngineModel.Cxx
